@@ -20,7 +20,14 @@ mod c15;
 mod c16;
 #[cfg(feature = "full")]
 mod c17;
+#[cfg(feature = "full")]
+mod binfmt;
+#[cfg(feature = "full")]
+mod c11x;
 mod cscript;
+mod huge;
+#[cfg(all(feature = "full", not(miri)))]
+mod scanalloc;
 mod hist;
 mod kern;
 mod plat;
@@ -30,6 +37,7 @@ mod xcheck;
 mod xt;
 
 use run::Args;
+
 
 fn main() {
     let argv: Vec<String> = std::env::args().skip(1).collect();
@@ -68,6 +76,11 @@ fn main() {
         "c16" => (c16::run(&args), c16::RULE),
         #[cfg(feature = "full")]
         "c17" => (c17::run(&args), c17::RULE),
+        "huge" => (huge::run(&args), huge::RULE),
+        "huge-expect" => {
+            huge::expect(&args);
+            return;
+        }
         "gen-cscript" => {
             cscript::run(&args);
             return;
